@@ -123,6 +123,12 @@ CORPUS = [
      "def outer_2110():\n    «2110»def ms(e): return e.v + 2110 + len(\"\"\"\n    abcdefgh\n  ij\"\"\")\n    «2111»def ms2(e):\n"
      "        return e.v + 2111 + len(\"\"\"\nabcdefgh\"\"\")\n    return ds.Select(ms).Select(ms2)\nr = outer_2110()\n",
      [(2110, "def", "Select", ["e"], True, True), (2111, "def", "Select", ["e"], True, True)]),
+    ("F51 witness: a bracketed continuation line left of the def (a def under `if` in a function)",
+     "def outer_2112():\n    if ds is not None:\n        «2112»def g(e): return (e.v *\n    1+2112)\n        return ds.Select(g)\nr = outer_2112()\n",
+     [(2112, "def", "Select", ["e"], True, True)]),
+    ("F53 witness: a function under a functools.wraps decorator that doubles the result: must raise, not record the undecorated body",
+     "@twice\n«2113»def dbl(e): return e.v + 2113\nr = ds.Select(dbl)\n",
+     [(2113, "def", "Select", ["e"], True, False)]),
     ("one-line def, two-line def",
      "«2100»def one(e): return e.v + 2100\n«2101»def two(e):\n    return e.v + 2101\nr = ds.Select(one).Select(two)\n",
      [(2100, "def", "Select", ["e"], True, True), (2101, "def", "Select", ["e"], True, True)]),
